@@ -2315,12 +2315,11 @@ func (r *Runtime) wrapJSFunc(fn Callable, typ reflect.Type) func(args []reflect.
 		if err != nil {
 			if numOut > 0 && typ.Out(numOut-1) == reflectTypeError {
 				if ex, ok := err.(*Exception); ok {
-					if exo, ok := ex.val.(*Object); ok {
-						if v := exo.self.getStr("value", nil); v != nil {
-							if v.ExportType().AssignableTo(reflectTypeError) {
-								err = v.Export().(error)
-							}
-						}
+					// only instances of GoError are unwrapped (see ExportTo); the properties of any
+					// other thrown object must not be touched: reading 'value' could run a getter,
+					// and a null 'value' has no export type
+					if e1 := ex.Unwrap(); e1 != nil {
+						err = e1
 					}
 				}
 				results[numOut-1] = reflect.ValueOf(err).Convert(typ.Out(numOut - 1))
